@@ -29,7 +29,37 @@ def codec_case(draw, tier: str, n_values: int, vcfg: S.ValCfg = None):
     names = [x.name for x in s.structs]
     name = draw(st.sampled_from(names + names[-1:] * 2))
     vals = draw(st.lists(S.struct_value(s, name, vcfg), min_size=1, max_size=n_values))
+    if (vcfg is None or vcfg.pad_blocks) and draw(st.integers(0, 5)) == 0:
+        padded = pad_to_block(s, name, vals[0], draw(st.sampled_from([256, 4096, 4096, 8192])),
+                              draw(st.sampled_from([0, 0, -1, 1, "len", "len"])))
+        if padded is not None:
+            vals = [padded] + list(vals[1:])
     return s, name, vals
+
+
+def pad_to_block(s: M.Schema, name: str, v: Dict[str, Any], block: int, delta: Any):
+    """Stretch one top-level string / byte-array field so that the whole encoding is exactly `block` bytes
+    (+ delta): block-size boundaries of buffers are reached whatever else the struct contains."""
+    st_ = s.struct(name)
+    for f in st_.fields:
+        is_str = isinstance(f.type, M.Str)
+        is_bytes = isinstance(f.type, M.Dyn) and isinstance(f.type.t, (M.U, M.I)) and f.type.t.n == 8
+        if not (is_str or is_bytes):
+            continue
+        base = dict(v)
+        base[f.name] = "" if is_str else []
+        _d, ann = refcodec.encode_annotated(s, name, base)
+        bits = sum(w for _k, _p, _o, w in ann)
+        if delta == "len":
+            n = block  # the payload itself is one block long
+        else:
+            n = (8 * (block + delta) - bits) // 8
+        if n < 0:
+            continue
+        out = dict(v)
+        out[f.name] = ("fcp~" * (n // 4 + 1))[:n] if is_str else [(i * 37) & 0x7F for i in range(n)]
+        return out
+    return None
 
 
 def classify(s: M.Schema, name: str, v: Dict[str, Any]) -> Tuple[bytes, List[str], bool]:
